@@ -614,12 +614,14 @@ pub fn lines_hist(cx: &mut Ctx, c: &Value) {
     cx.sum.eval(cell, &format!("lineshist {}", c), text.len() >= 3 && ops.len() >= 3);
     cx.sum.dist("lines_hist_cases");
     let cj = c.clone();
+    let mut n_refused = 0u64;
     let r = guarded(|| {
         let mut bad: Vec<String> = vec![];
         let cfg = lp_config(preset, bits, buf, maxlen, c["buf0"].as_bool().unwrap_or(false));
         let sh = shadow_lines(&text, &cfg);
         // a line longer than max_line_length must be refused; one that fits with its terminator must be delivered
-        let first_long = sh.iter().position(|l| l.raw_len > cfg.max_line_length);
+        let mut refused_lines = 0usize;
+        let mut long_bytes = 0usize;   // bytes of the refused lines
         let mut lp = LineProcessor::with_config(ChunkReader::new(text.as_bytes(), c["chunk"].as_u64().unwrap_or(0) as usize), cfg.clone());
         let mut cur = 0usize;
         let fail_err = || zipora::ZiporaError::invalid_data("handler failure requested by the test");
@@ -630,6 +632,8 @@ pub fn lines_hist(cx: &mut Ctx, c: &Value) {
             let mut i = cur;
             let mut hit_long = false;
             let mut batches_want: Vec<Vec<String>> = vec![];
+            // the next over-long line from here on (an earlier one was refused and the history went on behind it)
+            let first_long = (cur..sh.len()).find(|&j| sh[j].raw_len > cfg.max_line_length);
             match code {
                 0 | 6 => while i < sh.len() {
                     if Some(i) == first_long { hit_long = true; break; }
@@ -695,10 +699,22 @@ pub fn lines_hist(cx: &mut Ctx, c: &Value) {
             let what = format!("step {} op {} arg {} (preset {}, cfg {}, buffer {}, max line {})", step, code, arg, preset, bits, cfg.buffer_size, cfg.max_line_length);
             if hit_long {
                 // everything before the long line is still delivered in order; then the call fails (or, if only the
-                // terminator exceeds the limit, may go on) - the history ends here
+                // terminator exceeds the limit, may go on - then the history ends here: no expectation was computed for the rest)
                 if res.is_ok() && must_fail { bad.push(format!("{}: a line of {} bytes was accepted", what, sh[first_long.unwrap()].content_len)); }
                 if res.is_err() && matches!(code, 0 | 4 | 6) && got != seen { bad.push(format!("{}: lines before the over-long line: got {}, want {}", what, clip_v(&got), clip_v(&seen))); }
-                break 'hist;
+                if res.is_ok() || !bad.is_empty() { break 'hist; }
+                // The refusal: the reader has handed the over-long line out, so it is gone with the refusal - and nothing else is.
+                // The counters count accepted lines only, and the history goes on with the line behind the refused one.
+                let fl = first_long.unwrap();
+                refused_lines += 1;
+                n_refused += 1;
+                let st = lp.get_statistics();
+                let want_lines = fl + 1 - refused_lines;
+                let want_bytes: usize = sh[..fl].iter().map(|l| l.raw_len).sum::<usize>() - long_bytes;
+                if st.lines_processed != want_lines || st.bytes_processed != want_bytes { bad.push(format!("{}: after the refused line the statistics say {} lines / {} bytes, {} lines / {} bytes were accepted", what, st.lines_processed, st.bytes_processed, want_lines, want_bytes)); break 'hist; }
+                long_bytes += sh[fl].raw_len;
+                cur = fl + 1;
+                continue 'hist;
             }
             match (code, res) {
                 (5, _) => {}
@@ -724,6 +740,7 @@ pub fn lines_hist(cx: &mut Ctx, c: &Value) {
         }
         bad
     });
+    for _ in 0..n_refused { cx.sum.dist("lines_refused_then_continued"); }
     finish(cx, cell, cj, r);
 }
 
@@ -848,6 +865,7 @@ pub fn stream_hist(cx: &mut Ctx, strings: &[String], terms: &[u8], cut_last: boo
                     let res = match op { 1 => it.prev(), 2 => it.seek_start(), 3 => it.seek_end(), 4 => it.seek_lower_bound("a"), _ => it.seek_upper_bound("a") };
                     if res.is_ok() { break; } // seeking got implemented: no verdict from this history
                     if it.current().map(|s| s.to_string()) != before { bad.push(format!("step {}: a refused operation ({}) changed current() from {:?} to {:?}", step, op, before, it.current())); break; }
+                    if it.is_at_end() != ended { bad.push(format!("step {}: after a refused operation ({}) is_at_end() = {}, {} before it", step, op, it.is_at_end(), ended)); break; }
                 }
                 _ => {
                     if it.is_at_end() != ended { bad.push(format!("step {}: is_at_end() = {}", step, it.is_at_end())); }
@@ -1495,6 +1513,19 @@ pub fn fixed_families(cx: &mut Ctx, args: &Args) {
         }
     }
     for n in [7usize, 8, 9, 64] { for bits in 0..8 { lines_hist(cx, &json!({"cell": "lineshist", "kind": 0, "n": n, "seed": seed, "preset": 0, "cfg": bits, "buf": n, "maxlen": 0, "ops": [[0, 3], [2, 9]]})); } }
+    // refused operations inside histories: over-long lines between short ones (every option set, short reads), the history goes on
+    // behind each refused line; the refused motions of the streaming iterator between its next() calls
+    for bits in 0..8u64 {
+        let opsets = [json!([[0, 0], [0, 0], [0, 0], [1, 0]]), json!([[1, 0], [3, 0], [4, 0], [0, 0]]), json!([[2, 2], [0, 1], [2, 9], [5, 0], [1, 0]]), json!([[6, 2], [4, 0], [0, 1], [0, 0], [3, 0], [0, 0]])];
+        for (k, ops) in opsets.iter().enumerate() {
+            let text = if (bits as usize + k) % 2 == 0 { "ab\nTOOLONGLINE\ncd\r\n\n xxxxxxxxxx \r\nef\n,g,\nlast-line-without-end" } else { "far too long at once\na\nb,c\nagain far too long\nmore than four\nd\n\ne" };
+            lines_hist(cx, &json!({"cell": "lineshist", "text": text, "preset": 0, "cfg": bits, "buf": ([0, 1, 3, 16][k]), "maxlen": 4, "chunk": k, "ops": ops}));
+        }
+    }
+    for via in [0u64, 1, 3, 4099] {
+        let strings: Vec<String> = ["", "a", "ab", "ab", "b", "é"].iter().map(|s| s.to_string()).collect();
+        stream_hist(cx, &strings, &[0, 1, 0, 1, 1, 0], via % 2 == 1, &[1, 6, 0, 1, 6, 0, 2, 3, 0, 4, 6, 5, 0, 0, 0, 1, 6, 0, 0, 3, 6], via);
+    }
     for n in [7usize, 8, 9] { lines_hist(cx, &json!({"cell": "lineshist", "kind": 2, "n": n, "seed": seed, "preset": 0, "cfg": seed % 8, "buf": 0, "maxlen": n, "ops": [[0, 0]]})); }
     lines_hist(cx, &json!({"cell": "lineshist", "kind": 2, "n": (1 << 20) - 2, "seed": seed, "preset": 2, "cfg": 0, "buf": 0, "maxlen": 0, "ops": [[1, 0]]}));
     lines_hist(cx, &json!({"cell": "lineshist", "kind": 2, "n": 1 << 20, "seed": seed, "preset": 2, "cfg": 0, "buf": 0, "maxlen": 0, "ops": [[0, 0]]}));
